@@ -67,6 +67,8 @@ func (s *tokStream) value() *V {
 		return &V{K: 'C', C: rune(s.num())}
 	case "S":
 		return &V{K: 'S', S: s.str()}
+	case "T":
+		return &V{K: 'S', S: s.str(), BT: true}
 	case "Y":
 		return &V{K: 'Y', S: s.str()}
 	case "L":
@@ -127,6 +129,9 @@ func replay(path string) {
 		case "val":
 			js := ts.next() == "1"
 			valCase(env, ts.value(), js, js, "replay")
+		case "scr":
+			ts.next()
+			scrCase(env, ts.str(), "replay")
 		case "hist":
 			n := int(ts.num())
 			var ops []hop
